@@ -154,7 +154,33 @@ def isolated_run(method, nproc, nthr, k, path, child_remove, repo, timeout=240):
     return json.loads(last[-1][7:])
 
 
-if __name__ == "__main__":
+def exit_program(repo, path, nthr, k, how):
+    """a program that logs through an enqueue=True handler with a slow sink and then simply ENDS (no remove(), no
+    complete()): whatever was accepted must still be written - loguru drains the queue at interpreter exit"""
+    if repo not in sys.path:
+        sys.path.insert(0, repo)
+    from loguru import logger
+    out = open(path, "a", encoding="utf8", buffering=1)
+
+    def slow(message):
+        time.sleep(0.002)
+        out.write(str(message))
+    logger.add(slow, enqueue=True, format="{message}", catch=False)
+    ths = [threading.Thread(target=_log_many, args=(logger, "T%d" % j, k)) for j in range(nthr)]
+    for t in ths:
+        t.start()
+    for t in ths:
+        t.join()
+    if how == "sys_exit":
+        sys.exit(3)
+    if how == "exception":
+        raise RuntimeError("the program ends with an unhandled exception")
+
+
+if __name__ == "__main__" and len(sys.argv) > 2 and sys.argv[1] == "exit":
+    import json
+    exit_program(*json.loads(sys.argv[2]))
+elif __name__ == "__main__":
     import json
     _a = json.loads(sys.argv[1])
     _r = parent_run(*_a)
